@@ -29,7 +29,7 @@ def plumbing(fw, extra=""):
     """W1: imports at the top of a woven file"""
     fw._plumbed = True
     first = min((n["span"][0] for n in fw.nodes if n["parent"] == -1), default=0)
-    fw.insert(first, "#[allow(unused_imports)] use vstd::prelude::*;\n#[allow(unused_imports)] use crate::verif_specs::*;\n#[allow(unused_imports)] use crate::verif_prelude::*;\nverus!{ broadcast use {crate::verif_prelude::group_pyxis_axioms, crate::verif_specs::group_path_axioms}; }\n" + extra, rule="W1")
+    fw.insert(first, "#[allow(unused_imports)] use vstd::prelude::*;\n#[allow(unused_imports)] use crate::verif_specs::*;\n#[allow(unused_imports)] use crate::verif_prelude::*;\nverus!{ broadcast use {crate::verif_prelude::group_pyxis_axioms, crate::verif_specs::group_path_axioms, crate::verif_specs::group_vftable_axioms}; }\n" + extra, rule="W1")
 
 
 def plumbing_once(fw):
@@ -228,6 +228,13 @@ def closure_annot(ctx, fw, unit, c, params=None, ret=None, requires=(), ensures=
                 continue
             orig = fw.text(inp["span"])
             if inp["typed"]:
+                continue
+            if inp["tuple"]:
+                # R-closure-tuple: `|(a, b)| BODY` -> `|p__: T| { let (a, b) = p__; BODY }`
+                nm, ty = p.split(":", 1)
+                fw.replace(inp["span"][0], inp["span"][1], "%s:%s" % (nm.strip(), ty), "W7-R-closure-tuple")
+                fw.insert(c["body_span"][0], "{ let %s = %s; " % (orig, nm.strip()), rule="W7-R-closure-tuple", prio=-5)
+                fw.insert(c["body_span"][1], " }", rule="W7-R-closure-tuple", prio=5)
                 continue
             if inp["wild"]:
                 fw.replace(inp["span"][0], inp["span"][1], p, "W7-closure-param")
@@ -635,3 +642,18 @@ def string_cmp_literal(fw, fnnode, within_span):
             n += 1
     if n == 0:
         raise WeaveError("%s: R-streq: no `E == \"lit\"` comparison in the given statement" % fw.rel)
+
+
+def map_find(fw, fnnode, find_node, us, ps):
+    """R-std: `X.iter().map(F).find(G)` -> `v_map_find(X.as_slice(), F, G, Ghost(us), Ghost(ps))` (verified helper)"""
+    kids = [c for c in fw.children.get(find_node["id"], []) if c["kind"] == "method_call" and c["span"] == find_node["receiver_span"]]
+    if len(kids) != 1 or kids[0]["method"] != "map":
+        raise WeaveError("%s:%d R-std map/find: receiver of find is not .map(..)" % (fw.rel, fw.line_of(find_node["span"][0])))
+    mp = kids[0]
+    kids = [c for c in fw.children.get(mp["id"], []) if c["kind"] == "method_call" and c["span"] == mp["receiver_span"]]
+    if len(kids) != 1 or kids[0]["method"] != "iter":
+        raise WeaveError("%s:%d R-std map/find: receiver of map is not .iter()" % (fw.rel, fw.line_of(find_node["span"][0])))
+    x = " ".join(fw.text(kids[0]["receiver_span"]).split())
+    fw.replace(find_node["span"][0], mp["paren_span"][0] + 1, "crate::verif_prelude::v_map_find(%s.as_slice(), " % x, "W9-R-std-map-find")
+    fw.replace(mp["paren_span"][1] - 1, find_node["paren_span"][0] + 1, ", ", "W9-R-std-map-find")
+    fw.insert(find_node["paren_span"][1] - 1, ", Ghost(%s), Ghost(%s)" % (us, ps), rule="W10", prio=8)
